@@ -9,21 +9,30 @@ INVARIANT Emit
 """
 
 
+FWD_EQS = ("masscons", "burgers", "fisher", "ou", "ns")
+
+
 def prepare(structs, seed):
-    return [lossrec.expand_eq(s, seed) for s in structs]
+    # equation structures (MC_Equations) + the separable-network branches of the built-in equations (MC_FwdRev, equations only)
+    return [lossrec.expand_fr(s, seed) if "M" in s and "op" in s else lossrec.expand_eq(s, seed)
+            for s in structs if not ("M" in s and "op" in s) or s["op"] in FWD_EQS]
 
 
 def sig(r):
+    if "struct" in r and "eq" not in r:
+        return dict({k: (v if isinstance(v, (int, str, bool)) else str(v)) for k, v in r["struct"].items()}, exc=(r.get("exc") or "").split(":")[0])
     return dict(eq=r["eq"], role=r["role"], layout=r["layout"], Tmax=r["Tmax"], dim=r["dim"], exc=(r.get("exc") or "").split(":")[0])
 
 
 def run(tier, seed):
     return _func.run(
-        "C02", tier, seed, emitters=[("MC_Equations", MC, "MC_Equations")], extras=lambda s: [], prepare=prepare, sig=sig,
+        "C02", tier, seed, emitters=[("MC_Equations", MC, "MC_Equations"), ("MC_FwdRev", 'CONSTANT Sel = "equations"\n' + MC, "MC_FwdRev_equations")], extras=lambda s: [], prepare=prepare, sig=sig,
         rule="TLC enumerates equation (Burgers, Fisher-KPP 1-D/2-D, OU Fokker-Planck 2-D, mass conservation, Navier-Stokes, generalized "
              "Lotka-Volterra) x Tmax 1,2,4 x parameter role under test (each parameter in turn the only non-trivial one, or all) x network/"
              "parameter key layout (dict orders, key names, flat vs per-key nested parameters, position of the main species) x 2 seeded "
              "instances; candidates are integer polynomial fields (GLV: c (1+t)^m at 1+t in {1,2,4,8}); the residual returned by "
-             "DynamicLoss.evaluate must equal Equations.tla exactly (rationals); distinct = distinct structure",
+             "DynamicLoss.evaluate must equal Equations.tla exactly (rationals); + the separable-network (forward-mode) branches of mass "
+             "conservation, Burgers, Fisher-KPP, OU Fokker-Planck and Navier-Stokes on polynomial SPINNs (structures of MC_FwdRev); "
+             "distinct = distinct structure",
         assumptions=["polynomial candidates (exact under x64); the GLV docstring is not in log form and its signs differ from the code and "
                      "the notebook cross-check: the oracle follows the log form, the docstring sign is a documentation remark"])
